@@ -6,6 +6,6 @@ cd "$(dirname "$0")"
 export GOFLAGS=-mod=mod GOPROXY=off GOSUMDB=off GOTOOLCHAIN=local
 mkdir -p out/bin out/logs evidence
 cp /repo/go.sum harness/go.sum
-(cd harness && go build -tags verif -cover -coverpkg=github.com/gebn/bmc/... -o ../out/bin/vchk ./cmd/vchk)
-(cd harness && go build -tags verif -race -o ../out/bin/vchk-race ./cmd/vchk)
+(cd harness && go build -tags verif -cover -covermode=atomic -coverpkg=github.com/gebn/bmc/...,verifharness/cmd/vchk -o ../out/bin/vchk ./cmd/vchk)
+(cd harness && go build -tags verif -race -cover -covermode=atomic -coverpkg=github.com/gebn/bmc/...,verifharness/cmd/vchk -o ../out/bin/vchk-race ./cmd/vchk)
 echo setup ok
